@@ -33,6 +33,9 @@ def settle(f, kind, tag):
         f.set_result(("res", tag))
     elif kind == "e":
         f.set_exception(E(tag))
+    elif kind == "x":
+        # failed with CancelledError as its exception: how multi() reports a cancelled input
+        f.set_exception(asyncio.CancelledError())
     else:
         f.cancel()
 
@@ -54,7 +57,7 @@ def fut_outcome(f):
 
 
 def want_of(kind, tag):
-    return {"r": ("ok", ("res", tag)), "e": ("E", tag), "c": ("cancelled",)}[kind]
+    return {"r": ("ok", ("res", tag)), "e": ("E", tag), "c": ("cancelled",), "x": ("cancelled",)}[kind]
 
 
 # --------------------------------------------------------------------------
@@ -167,6 +170,54 @@ def run_wait_iter(case):
         return rec, want, tdone, errs
 
 
+def run_wait_iter_cancel(case):
+    """case = (kinds, order, cancel_at): the consumer gives up on the future it got from next() (e.g. a wait_for
+    timing out) just before the cancel_at-th completion, and calls next() again afterwards."""
+    from tornado import gen
+    kinds, order, cancel_at = case
+    k = len(kinds)
+    with World() as w:
+        futs = [asyncio.Future() for _ in range(k)]
+        wi = gen.WaitIterator(*futs)
+        rec = []
+        box = {"nf": None}
+
+        def pull():
+            for _ in range(3 * k + 3):
+                if box["nf"] is None:
+                    if wi.done():
+                        return
+                    box["nf"] = wi.next()
+                w.pump()
+                nf = box["nf"]
+                if not nf.done():
+                    return
+                rec.append((fut_outcome(nf), wi.current_index,
+                            wi.current_future is not None and futs.index(wi.current_future)))
+                box["nf"] = None
+        pull()
+        for step, i in enumerate(order):
+            if step == cancel_at and box["nf"] is not None:
+                box["nf"].cancel()
+                box["nf"] = None
+                w.pump()
+            settle(futs[i], kinds[i], i)
+            w.pump()
+            pull()
+        rec.append(("end",) if wi.done() else ("not-done",))
+        errs = [str(c.get("message")) + ":" + type(c.get("exception")).__name__ for c in w.loop_errors()]
+        want = [(want_of(kinds[i], i), i, i) for i in order] + [("end",)]
+        return rec, want, True, errs
+
+
+def cases_wait_iter_cancel(n):
+    for k in range(1, min(n, 3) + 1):
+        for kinds in itertools.product("rec", repeat=k):
+            for order in itertools.permutations(range(k)):
+                for cancel_at in range(k):
+                    yield (kinds, order, cancel_at)
+
+
 def cases_wait_iter(n):
     for k in range(0, n + 1):
         for kinds in itertools.product("rec", repeat=k):
@@ -193,6 +244,14 @@ def run_with_timeout(case):
             t = w.ioloop.time() + 5
         elif tform == "delta":
             t = datetime.timedelta(seconds=5)
+        elif tform == "abs-now":
+            t = w.ioloop.time()
+        elif tform == "abs-past":
+            t = w.ioloop.time() - 1
+        elif tform == "delta-zero":
+            t = datetime.timedelta(0)
+        elif tform == "delta-neg":
+            t = datetime.timedelta(seconds=-1)
         res = gen.with_timeout(t, f)
         w.pump()
         mid = None
@@ -226,6 +285,14 @@ def cases_with_timeout():
             for when in ("predone", "before", "after"):
                 yield (kind, when, tform)
         yield ("n", "never", tform)
+    # a deadline that has already passed: an input that is already done still wins, a pending one times out at once
+    for tform in ("abs-now", "abs-past", "delta-zero", "delta-neg"):
+        for kind in "recx":
+            yield (kind, "predone", tform)
+        yield ("n", "never", tform)
+    for tform in ("abs", "delta"):
+        for when in ("predone", "before"):
+            yield ("x", when, tform)
 
 
 # --------------------------------------------------------------------------
@@ -281,7 +348,7 @@ def cf_outcome(f):
 
 
 def cases_chain():
-    for akind in "rec":
+    for akind in "recx":
         for a_predone in (0, 1):
             for bstate in ("pending", "done-before", "cancel-before", "done-between", "cancel-between"):
                 for bclass in ("asyncio", "cf"):
@@ -303,11 +370,12 @@ def guarded(fn):
     return run
 
 
-run_multi, run_wait_iter, run_with_timeout, run_chain = map(
-    guarded, (run_multi, run_wait_iter, run_with_timeout, run_chain))
+run_multi, run_wait_iter, run_with_timeout, run_chain, run_wait_iter_cancel = map(
+    guarded, (run_multi, run_wait_iter, run_with_timeout, run_chain, run_wait_iter_cancel))
 
 FAMILIES = {"multi": (cases_multi, run_multi), "wait_iter": (cases_wait_iter, run_wait_iter),
-            "with_timeout": (cases_with_timeout, run_with_timeout), "chain": (cases_chain, run_chain)}
+            "with_timeout": (cases_with_timeout, run_with_timeout), "chain": (cases_chain, run_chain),
+            "wait_iter_cancel": (cases_wait_iter_cancel, run_wait_iter_cancel)}
 
 
 def judge(fam, case, out):
@@ -324,7 +392,7 @@ def judge(fam, case, out):
             bad.append(("multi:%s:%s" % (got[0], tag), "multi%r -> %r, want %r" % (case, got, want)))
         if early is not None:
             bad.append(("multi:resolved-before-all-inputs-done", "multi%r resolved at step %d" % (case, early)))
-    elif fam == "wait_iter":
+    elif fam in ("wait_iter", "wait_iter_cancel"):
         rec, want, tdone, errs = out
         if rec != want:
             kind = "pending" if not tdone else "order"
@@ -373,7 +441,7 @@ class C36(Check):
     def run_partition(self, part, tier, st):
         fam, n, s, nslices = part
         gen_cases, run = FAMILIES[fam]
-        it = gen_cases(n) if fam in ("multi", "wait_iter") else gen_cases()
+        it = gen_cases(n) if fam in ("multi", "wait_iter", "wait_iter_cancel") else gen_cases()
         for i, case in enumerate(it):
             if i % nslices != s:
                 continue
